@@ -150,7 +150,7 @@ var props = map[string]PropMeta{
 	},
 	"C01": {
 		Level: "exploration",
-		Rule: "one run = role x trust configuration (paired/auto/none, waiting allowed or not) x peer hello mode x user plan (approve/cancel/revoke at a drawn event) x up to 32 peer events drawn from {cooperative next frame, deviant frame of 12 classes, SPINE data, clock advance 1ms..120s, transport error, close announce} x seeded interleaving of pump, user and timer tasks; in 20% of the runs instead: three real hubs, hub A never trusts B (auto-accept off) while B keeps dialling it and A's user registers / unregisters / cancels / disconnects other SKIs and B itself - over public callbacks only: no setup, no payload, no trusted/completed pairing state for B; " +
+		Rule: "one run = role x trust configuration (paired/auto/none, waiting allowed or not) x peer hello mode x user plan (approve/cancel/revoke at a drawn event) x up to 32 peer events drawn from {cooperative next frame, deviant frame of 12 classes, SPINE data, clock advance 1ms..120s, transport error, close announce} x seeded interleaving of pump, user and timer tasks; in 3% of the runs (they cost 100x more) instead: three real hubs, hub A never trusts B (auto-accept off) while B keeps dialling it and A's user registers / unregisters / cancels / disconnects other SKIs and B itself - over public callbacks only: no setup, no payload, no trusted/completed pairing state for B; " +
 			"non-trivial = the connection reached pending-listen (a trust decision was actually open); distinct = distinct sets of (state at delivery, input class) plus configuration",
 		Real: ship1Real, Stub: ship1Stub,
 		QuickS: 20, ThoroughS: 420, QuickWorkers: 6,
